@@ -54,6 +54,10 @@ class Harness:
             self.nf = 2                    # the tag of an unlabelled platform lives in its first frame
         self.inst = [None] * (SLOTS + 1)
         self.work = None
+        # in every other history the second constructed block has one frame more than the first, so
+        # that an item leaking from one block into the other has the wrong length there
+        self.skew = (seed // 4) % 2 == 1
+        self.frames = {}      # slot -> frame count of the block now in it
 
     # ------------------------------------------------------------ items
     def ident(self, obj):
@@ -99,16 +103,24 @@ class Harness:
                 return k
         return -1
 
-    def new_item(self, lab, good=True):
-        """a fresh item object; good=False: wrong frame count or not an item at all"""
+    def new_item(self, lab, good=True, inst=1):
+        """a fresh item object for the block in slot `inst`; good=False: wrong frame count, an item
+        whose data was replaced by an array of another length after construction, an item of
+        another block family, or not an item at all"""
         self.tagc += 1
         t = self.tagc
         text = self.labels[lab]
-        NF = self.nf
+        NF = self.frames_of(inst)
         n = NF if good else NF + 1 + t % 2
+        if not good and t % 5 == 2 and self.kind in ("EMG", "Data3D") and NF > 0:
+            # built with the right length, then its data attribute replaced by a shorter array
+            a = np.arange(NF * 3, dtype="<f4").reshape(NF, 3) + t
+            it = EMGTrack(text, a[:, 0].copy()) if self.kind == "EMG" else MarkerTrack(text, a.copy())
+            it.data = it.data[: NF - 1] if NF > 1 else np.concatenate([it.data, it.data])
+            return it
         if not good and t % 5 == 1 and self.kind in ("EMG", "Data3D", "Force"):
             # an item of ANOTHER block family with exactly the right number of frames
-            a = np.arange(self.nf * 3, dtype="<f4").reshape(self.nf, 3)
+            a = np.arange(NF * 3, dtype="<f4").reshape(NF, 3)
             if self.kind == "Data3D":
                 return ForceTorqueTrack(text, a, a.copy(), a.copy())
             return MarkerTrack(text, a)
@@ -137,9 +149,9 @@ class Harness:
             return OpticalChannelData(t, "lens", "type", text, CameraViewPort(np.array([0, t], "<i4"), np.array([1, 2], "<i4")))
         raise ValueError(k)
 
-    def new_block(self, items):
+    def new_block(self, items, inst=1):
         k = self.kind
-        NF = self.nf
+        NF = self.base_frames(inst)
         if k == "EMG":
             return EMG(1000, NF)
         if k == "Data3D":
@@ -193,15 +205,38 @@ class Harness:
         for i in range(1, SLOTS + 1):
             b = self.inst[i]
             if b is None:
-                out.append(dict(ex=False, items=[], chans=[], aux=0, szok=True))
+                out.append(dict(ex=False, items=[], chans=[], aux=0, szok=True, lenok=True))
                 continue
             try:
                 items = self.items_of(b)
                 out.append(dict(ex=True, items=[dict(id=self.ident(x), label=self.label_id(x), val=self.content_id(x)) for x in items],
-                                chans=self.chans_of(b), aux=self.aux_of(b), szok=self.size_ok(b)))
+                                chans=self.chans_of(b), aux=self.aux_of(b), szok=self.size_ok(b), lenok=self.lengths_ok(i, items)))
             except Exception as x:  # noqa: BLE001
-                out.append(dict(ex=True, items=[dict(id=-1, label=-1, val=-1)], chans=[-98, -97], aux=-1, szok=True))
+                out.append(dict(ex=True, items=[dict(id=-1, label=-1, val=-1)], chans=[-98, -97], aux=-1, szok=True, lenok=True))
         return out
+
+    def frames_of(self, i):
+        """frame count of the block in slot i: the second instance of a history has one frame more,
+        so that an item that leaks from one block into the other has the wrong length there"""
+        return self.frames.get(i, self.base_frames(i))
+
+    def base_frames(self, i):
+        if self.skew and self.kind in ("EMG", "Data3D", "Force") and self.nf > 0 and i == 2:
+            return self.nf + 1
+        return self.nf
+
+    def lengths_ok(self, i, items):
+        if self.kind not in ("EMG", "Data3D", "Force"):
+            return True
+        want = self.frames_of(i)
+        for x in items:
+            try:
+                n = len(x.data) if self.kind in ("EMG", "Data3D") else len(x.application_point)
+            except Exception:  # noqa: BLE001
+                return False
+            if n != want:
+                return False
+        return True
 
     def size_ok(self, b):
         """declared size == size of the encoding (blocks without frames cannot be encoded)"""
@@ -253,12 +288,28 @@ class Harness:
         val = []
         fn = None
         if op == "construct":
-            items = [self.new_item(l) for l in lab["labels"]]
+            prev = getattr(self, "ctor_list", None)
+            if (prev is not None and self.tagc % 2 == 0 and len(prev[0]) == len(lab["labels"]) > 0
+                    and prev[1] == lab["labels"] and prev[2] != i and prev[3] == self.base_frames(i)):
+                # the SAME list object is handed to a second constructor: the two blocks hold the same
+                # item objects (the caller's choice) but must not share their containers
+                items = prev[0]
+                self.share_ok = True
+            else:
+                old = self.frames.get(i)
+                self.frames[i] = self.base_frames(i)
+                items = [self.new_item(l, inst=i) for l in lab["labels"]]
+                if old is None:
+                    del self.frames[i]
+                else:
+                    self.frames[i] = old
+            self.ctor_list = (items, list(lab["labels"]), i, self.base_frames(i))
             o["xs"] = [dict(id=self.ident(x), label=l, good=True, val=self.content_id(x)) for x, l in zip(items, lab["labels"])]
             self.handed.pop(i, None)   # (a list given to a constructor may be kept by the block)
 
             def fn():
-                self.inst[i] = self.new_block(items)
+                self.inst[i] = self.new_block(items, inst=i)
+                self.frames[i] = self.base_frames(i)
         elif op == "decode":
             j = lab["j"]
             o["j"] = j
@@ -266,8 +317,9 @@ class Harness:
 
             def fn():
                 self.inst[j], self.inst[SLOTS] = self.decode_twice(b)
+                self.frames[j] = self.frames[SLOTS] = self.frames_of(i)
         elif op == "add":
-            x = self.new_item(lab["label"], lab["good"])
+            x = self.new_item(lab["label"], lab["good"], inst=i)
             c = lab["c"]
             o.update(x=dict(id=self.ident(x), label=lab["label"], val=self.content_id(x) if lab["good"] else 0), good=lab["good"], c=c)
             k = self.kind
@@ -300,7 +352,7 @@ class Harness:
                 o["key"] = self.ident(target)
                 fn = lambda: b.remove_platform(target)  # noqa: E731
         elif op == "assign":
-            xs = [self.new_item(l, g) for l, g in lab["pat"]]
+            xs = [self.new_item(l, g, inst=i) for l, g in lab["pat"]]
             cs = lab["cs"]
             o["xs"] = [dict(id=self.ident(x), label=l, good=g, val=self.content_id(x) if g else 0) for x, (l, g) in zip(xs, lab["pat"])]
             o["cs"] = cs
@@ -313,11 +365,11 @@ class Harness:
                 if k in ("Data3D", "Force"):
                     b.tracks = xs if as_list else iter(xs)
                 elif k == "FPCal":
-                    b.platforms = list(zip(cs, xs))
+                    b.platforms = list(zip(cs, xs)) if as_list else zip(cs, xs)   # any iterable of pairs
                 else:
                     b.platforms = xs
         elif op == "bulk_add":
-            xs = [self.new_item(l) for l in lab["labels"]]
+            xs = [self.new_item(l, inst=i) for l in lab["labels"]]
             cs = lab["cs"]
             o["xs"] = [dict(id=self.ident(x), label=l, good=True, val=self.content_id(x)) for x, l in zip(xs, lab["labels"])]
             o["cs"] = cs
@@ -344,7 +396,11 @@ class Harness:
                     val.append(1 if self.labels[key] in b else 0)
                 elif what == "badkey":
                     self.tagc += 1
-                    b[[1.5, None, (0,), b"", slice(0, 2)][self.tagc % 5]]
+                    keys = [1.5, None, (0,), b"", slice(0, 2)]
+                    items = self.items_of(b)
+                    if items:
+                        keys.append(items[0])      # an item object is not a key either
+                    b[keys[self.tagc % len(keys)]]
         elif op == "edit":
             pos = lab["pos"]
             o["pos"] = pos
@@ -390,6 +446,8 @@ class Harness:
             src = self.inst[j]
             if src is None:
                 return None
+            # tracks of a block with another frame count are wrong-length items for this one
+            o["compat"] = bool(self.frames_of(i) == self.frames_of(j) or not self.items_of(src))
 
             def fn():
                 b.tracks = src.tracks
